@@ -44,17 +44,22 @@ DedupT(kids) == IF Len(kids) = 0 THEN <<>> ELSE
 InsertAt(seq, pos, x) ==   \* Python list.insert(pos, x) with 0-based pos (past the end appends)
   IF pos >= Len(seq) THEN Append(seq, x) ELSE SubSeq(seq, 1, pos) \o <<x>> \o SubSeq(seq, pos + 1, Len(seq))
 
-\* per-path overrides (config [rules] / [keys]) for the keys of the root Hash: cfg.rules / cfg.keys are
-\* sequences of [k, mode] / [k, idkey]; cfg.lvl = 0 at the document root
+\* per-path overrides (config [rules] / [keys]): cfg.rules / cfg.keys are sequences of [k | path, mode] / [k | path, idkey];
+\* a rule names a node by the Hash keys leading to it from the merge point (`path`, or `k` for a key of the root Hash);
+\* cfg.at is the key path of the Hash being merged (nodes reached through an Array are not addressed by rules here)
 RulesOf(cfg) == IF "rules" \in DOMAIN cfg THEN cfg.rules ELSE <<>>
 KeysOf(cfg) == IF "keys" \in DOMAIN cfg THEN cfg.keys ELSE <<>>
 RootRuleOf(cfg) == IF "rootrule" \in DOMAIN cfg THEN cfg.rootrule ELSE ""
-LvlOf(cfg) == IF "lvl" \in DOMAIN cfg THEN cfg.lvl ELSE 0
-Deeper(cfg) == IF "lvl" \in DOMAIN cfg THEN [cfg EXCEPT !.lvl = 1] ELSE cfg
-RuleFor(cfg, k) == LET R == RulesOf(cfg) hit == {j \in 1..Len(R) : R[j].k = k} IN
-                   IF LvlOf(cfg) # 0 \/ hit = {} THEN "" ELSE R[CHOOSE j \in hit : TRUE].mode
-IdKeyFor(cfg, k) == LET K == KeysOf(cfg) hit == {j \in 1..Len(K) : K[j].k = k} IN
-                    IF LvlOf(cfg) # 0 \/ hit = {} THEN cfg.idkey ELSE K[CHOOSE j \in hit : TRUE].idkey
+Tracks(cfg) == "at" \in DOMAIN cfg
+AtOf(cfg) == IF Tracks(cfg) THEN cfg.at ELSE <<>>
+OffPath == <<"#">>                                   \* below an Array: no rule path reaches here
+Deeper(cfg, k) == IF Tracks(cfg) THEN [cfg EXCEPT !.at = IF @ = OffPath THEN OffPath ELSE Append(@, k)] ELSE cfg
+BelowArray(cfg) == IF Tracks(cfg) THEN [cfg EXCEPT !.at = OffPath] ELSE cfg
+PathOfRule(r) == IF "path" \in DOMAIN r THEN r.path ELSE <<r.k>>
+RuleFor(cfg, k) == LET R == RulesOf(cfg) hit == {j \in 1..Len(R) : PathOfRule(R[j]) = AtOf(cfg) \o <<k>>} IN
+                   IF ~Tracks(cfg) \/ hit = {} THEN "" ELSE R[CHOOSE j \in hit : TRUE].mode
+IdKeyFor(cfg, k) == LET K == KeysOf(cfg) hit == {j \in 1..Len(K) : PathOfRule(K[j]) = AtOf(cfg) \o <<k>>} IN
+                    IF ~Tracks(cfg) \/ hit = {} THEN cfg.idkey ELSE K[CHOOSE j \in hit : TRUE].idkey
 
 RECURSIVE MergeVal(_, _, _)
 RECURSIVE MergeValAt(_, _, _, _)
@@ -145,7 +150,7 @@ MergeAoH(l, r, cfg) ==
   ELSE LET first == r.kids[1]
            idk == IF cfg.idkey # "" THEN [t |-> "str", v |-> cfg.idkey]
                   ELSE IF Len(first.keys) > 0 THEN first.keys[1] ELSE [t |-> "str", v |-> ""]
-           st == AoHFold([kids |-> l.kids, ok |-> TRUE, info |-> FALSE], r, 1, idk, cfg)
+           st == AoHFold([kids |-> l.kids, ok |-> TRUE, info |-> FALSE], r, 1, idk, BelowArray(cfg))
        IN IF ~st.ok THEN [MErr EXCEPT !.info = st.info] ELSE [ok |-> TRUE, tr |-> [l EXCEPT !.kids = st.kids], info |-> st.info]
 
 MergeLists(l, r, cfg) ==
@@ -172,7 +177,7 @@ MergeVal(l, r, cfg) ==
 
 \* ---- the same, for a key of the root Hash that a per-path rule / identity key names (precedence: rules > CLI) ----
 MergeValAt(l, r, cfg, k) ==
-  LET rule == RuleFor(cfg, k) idk == IdKeyFor(cfg, k) inner == Deeper(cfg) IN
+  LET rule == RuleFor(cfg, k) idk == IdKeyFor(cfg, k) inner == Deeper(cfg, k) IN
   IF rule = "" /\ idk = cfg.idkey THEN MergeVal(l, r, inner)
   ELSE IF r.k = "map" THEN
     (LET m == IF rule = "" THEN cfg.hashes ELSE rule IN
